@@ -97,6 +97,14 @@ CLAIMS = {
          "Triangle/Rectangle/RegularPolygon/Simplex/Cuboid, for collection areas, items obtained by indexing/iteration and the "
          "faces of polyhedra, and for == over all 24 orderings of quadrilateral vertex lists.",
     design="5/C17", technique="TLC enumeration of grid polytopes with exact measure oracles + replay"),
+ "C18": dict(
+    text="C18_Intersect.tla computes the exact set of common points (or, for overlapping operands, the relation 'subset of the "
+         "common points') for grid segments x segments/lines, convex and non-convex polygons x lines/segments, polygons of 3-space "
+         "and cuboids x lines/segments, segments x planes; TLC certifies that every expected point is on both operands and every "
+         "lattice point on both operands is expected, at most two points for convex polygons/cuboids; geometer's result lists are "
+         "compared as sets of projective points with each point once, in both argument orders, with mixed-sign homogeneous "
+         "representatives of the vertices, and through SegmentCollection.",
+    design="5/C18", technique="TLC enumeration with an exact intersection-set oracle + replay"),
 }
 
 checks = []
